@@ -17,14 +17,19 @@
 (***************************************************************************)
 EXTENDS Naturals, Sequences, TLC
 
-CONSTANTS Kinds, MaxLen, ReadSizes, Short
+CONSTANTS Kinds, MaxLen, ReadSizes, Short, WindowUnits
 \* Short = TRUE: the underlying file object may return fewer units than requested before the end of the data
 \* (a raw stream, a pipe, a socket); the drivers must go on until a read returns nothing
 
+\* WindowUnits = the units the 512-byte window of the text/binary heuristic covers: 2 with 256-byte units.  The file-level
+\* entry points (file_md5, hash_file) read in blocks of 1 MiB whether or not progress is reported; they are modelled
+\* with 32 KiB units (WindowUnits = 1, one read of 32 units), every unit uniform in kind
 IsText(k) == k \in {"T", "C", "R", "L", "c", "r"}
-Window(chunk) == SubSeq(chunk, 1, IF Len(chunk) < 2 THEN Len(chunk) ELSE 2)
+WindowW(chunk, w) == SubSeq(chunk, 1, IF Len(chunk) < w THEN Len(chunk) ELSE w)
 \* istextblock(chunk[:512]); an empty chunk is not looked at
-TextChunk(chunk) == \A i \in DOMAIN Window(chunk) : IsText(Window(chunk)[i])
+TextChunkW(chunk, w) == \A i \in DOMAIN WindowW(chunk, w) : IsText(WindowW(chunk, w)[i])
+Window(chunk) == WindowW(chunk, WindowUnits)
+TextChunk(chunk) == TextChunkW(chunk, WindowUnits)
 \* dos2unix(chunk) = chunk.replace("\r\n", "\n")
 NormChunk(chunk) ==
     [i \in DOMAIN chunk |->
@@ -44,7 +49,7 @@ Init == /\ content \in Contents /\ stream \in {"plain", "legacy"}
 \* read(n): n units requested (the legacy stream asserts n >= 512 bytes = 2 units); the source hands over k <= n
 Read(n, k) ==
     /\ pos < Len(content) \/ nreads = 0          \* the loop stops at the first empty read
-    /\ stream = "legacy" => n >= 2
+    /\ stream = "legacy" => n >= WindowUnits
     /\ LET hi == IF pos + k > Len(content) THEN Len(content) ELSE pos + k
            chunk == SubSeq(content, pos + 1, hi)
            data == IF stream = "legacy" THEN LegacyFed(chunk) ELSE chunk
